@@ -64,6 +64,7 @@ from .tokenizer import (
     Tokenizer,
 )
 from pyimpspec.exceptions import (
+    ParsingError,
     InsufficientTokens,
     UnexpectedToken,
     UnexpectedIdentifier,
@@ -111,8 +112,13 @@ class Parser:
             if tokens:
                 self._tokens = tokens
                 self.migrate(version=version)
-                while self._tokens:
-                    self.main_loop()
+                try:
+                    while self._tokens:
+                        self.main_loop()
+                except RecursionError:
+                    raise ParsingError(
+                        "The connections and/or subcircuits are nested too deeply!"
+                    )
 
         con: Union[Series, Parallel]
         if self.get_stack_length() > 1:
